@@ -44,6 +44,19 @@ macro inner(expr b, expr a) { if b > a { h1(); } else { h2(); } }
 macro outer(expr a) { inner([a + 1], 7); }
 parser { /[0-9]/; outer([$last - '0']); ";"; }
 ''', 'same'))
+    P.append(('swapped-forwarding-same-names', HEAD + '''
+macro set2(out p, out q) { p = 1; q = [p + 1]; }
+macro rd2(match u, match v, out p, out q) { s += u; p = [s.len]; delete s; s += v; q = [s.len]; }
+macro swapped(out p, out q, match u, match v) { set2(q, p); rd2(v, u, q, p); }
+parser { "<"; swapped(a, b, /[0-9]+/, /[a-z]+/); ">"; h1(); }
+''', 'same'))
+    P.append(('enum-constant-through-expr-arg', '''out enum{NONE,GET,POST} method;
+out int cnt = 0;
+hook seen;
+macro set_method(expr which, expr c) { method = which; cnt = c; }
+macro verb(match text, expr which) { text; set_method(which, [cnt + 1]); seen(); }
+parser { method = NONE; loop { case { "G" -> { verb("ET", GET); } "P" -> { verb("OST", POST); } "." -> { break; } } } }
+''', 'same'))
     P.append(('yieldcode-arg', '''// args: -fyield-support
 yieldcode Y1, Y2;
 out int n = 0;
